@@ -327,6 +327,10 @@ def jobs_for(t):
             # several outcomes, one condition: rule 2 must hold for every outcome before a condition becomes an intervention
             add(g, pairs_for(g.nodes, 0, 2, 1, shapes=[(2, 1)]))
             add(g, pairs_for(g.nodes, 1, 2, 1, shapes=[(2, 1)], stride=48, offset=seed()))
+            # one outcome carrying a two-variable subscript given one plain condition (the merge of worlds then looks at
+            # several differing parents at once): a stride
+            two = [(ga, de) for ga, de in pairs_for(g.nodes, 2, 1, 1) if len(ga[0][1]) == 2 and not de[0][1]]
+            add(g, two[seed() % 6 :: 6])
         g = CURATED["fig9"]
         add(g, [((("Y", (("X", 0),), 0),), (("X", (), 1), ("Z", (("D", 0),), 0), ("D", (), 0)))])
     else:
